@@ -274,7 +274,7 @@ func sshHandler(w *workerCtx, line []byte) (any, error) {
 		}()
 		select {
 		case rerr = <-reqDone:
-		case <-time.After(5 * time.Second):
+		case <-quietAfter(s.Real, 5*time.Second, 30*time.Second):
 			rerr = fmt.Errorf("no reply to the request")
 		}
 		if rerr != nil {
@@ -302,33 +302,42 @@ func sshHandler(w *workerCtx, line []byte) (any, error) {
 			}
 		}()
 		snapshot := func() []byte { mu.Lock(); defer mu.Unlock(); return append([]byte(nil), got...) }
+		// waitFor waits until cond holds, the channel is closed, or the session has
+		// been quiet for d: for the in-process listener "quiet" is idleness of its
+		// goroutines (independent of the machine's speed), for the real binary,
+		// whose goroutines we cannot see, 4 x d of wall time
 		waitFor := func(d time.Duration, cond func(b []byte) bool) []byte {
-			deadline := time.Now().Add(d)
+			quiet := quietAfter(s.Real, d, 4*d)
 			for {
 				b := snapshot()
-				if cond(b) || time.Now().After(deadline) {
+				if cond(b) {
 					return b
 				}
 				select {
 				case <-eof:
 					return snapshot()
+				case <-quiet:
+					return snapshot()
 				case <-time.After(5 * time.Millisecond):
 				}
 			}
 		}
-		first := waitFor(400*time.Millisecond, func(b []byte) bool { return len(b) >= 9 })
-		greeted := bytes.HasPrefix(first, []byte("@RSYNCD:"))
+		first := waitFor(500*time.Millisecond, func(b []byte) bool { return len(b) >= 9 })
 		if len(first) == 0 {
 			// a command-mode server waits for the peer's protocol version before it
 			// says anything: speak first, so that a started server shows itself
 			stdin.Write([]byte{27, 0, 0, 0})
-			first = waitFor(1100*time.Millisecond, func(b []byte) bool { return len(b) >= 8 })
+			first = waitFor(1*time.Second, func(b []byte) bool { return len(b) >= 8 })
 			obs.Probed = true
+			if bytes.HasPrefix(first, []byte("@RSYNCD:")) {
+				return nil, fmt.Errorf("the daemon greeting arrived only after the probe (machine too slow for the real-binary wait): no observation")
+			}
 		}
+		greeted := bytes.HasPrefix(first, []byte("@RSYNCD:"))
 		if greeted {
 			// speak the daemon protocol: ask for the module list
 			io.WriteString(stdin, "@RSYNCD: 27\n#list\n")
-			all := waitFor(3*time.Second, func(b []byte) bool { return bytes.Contains(b, []byte("@RSYNCD: EXIT")) })
+			all := waitFor(5*time.Second, func(b []byte) bool { return bytes.Contains(b, []byte("@RSYNCD: EXIT")) })
 			lines := strings.Split(string(all), "\n")
 			for _, l := range lines[1:] {
 				if l == "" || strings.HasPrefix(l, "@RSYNCD:") {
@@ -349,7 +358,7 @@ func sshHandler(w *workerCtx, line []byte) (any, error) {
 			} else if err != nil {
 				obs.Exit = -2
 			}
-		case <-time.After(3 * time.Second):
+		case <-quietAfter(s.Real, 3*time.Second, 15*time.Second):
 		}
 		all := snapshot()
 		obs.NOut = len(all)
@@ -378,13 +387,23 @@ func sshHandler(w *workerCtx, line []byte) (any, error) {
 	}
 	// the daemon must still accept connections (SSH banner on a fresh TCP connection)
 	obs.Alive = false
-	if c2, err := net.DialTimeout("tcp", addr, 3*time.Second); err == nil {
-		c2.SetReadDeadline(time.Now().Add(3 * time.Second))
-		buf := make([]byte, 8)
-		if n, _ := io.ReadAtLeast(c2, buf, 4); n >= 4 && string(buf[:4]) == "SSH-" {
-			obs.Alive = true
+	for attempt := 0; attempt < 10 && !obs.Alive; attempt++ {
+		c2, err := net.DialTimeout("tcp", addr, 10*time.Second)
+		if err != nil {
+			if ne, ok := err.(net.Error); ok && ne.Timeout() {
+				continue // a slow machine, not a dead listener
+			}
+			break // refused: nobody listens any more
 		}
+		c2.SetReadDeadline(time.Now().Add(10 * time.Second))
+		buf := make([]byte, 8)
+		n, rerr := io.ReadAtLeast(c2, buf, 4)
 		c2.Close()
+		if n >= 4 && string(buf[:4]) == "SSH-" {
+			obs.Alive = true
+		} else if ne, ok := rerr.(net.Error); !(ok && ne.Timeout()) {
+			break // closed without a banner
+		}
 	}
 	return obs, nil
 }
@@ -466,4 +485,13 @@ func (d *realDaemon) stop() {
 		d.cmd.Process.Kill()
 		d.cmd.Wait()
 	}
+}
+
+// quietAfter fires when the session has been quiet for d: idleness of the
+// in-process listener's goroutines, or wall time for the real binary.
+func quietAfter(real bool, d, wall time.Duration) <-chan time.Time {
+	if real {
+		return time.After(wall)
+	}
+	return idleAfter(d)
 }
